@@ -546,6 +546,8 @@ impl<'a> Ctx<'a> {
                 pool.push((id("l2"), Kind::Scalar, true, Some("*this")));
             }
             if self.f.for_object {
+                pool.push((id("om"), Kind::Record, true, Some("k")));
+                pool.push((id("om"), Kind::Record, true, None));
                 pool.push((id("obj"), Kind::Any, true, None));
                 pool.push((id("n"), Kind::Scalar, false, None));
                 pool.push((id("s"), Kind::Scalar, false, None));
@@ -1013,6 +1015,8 @@ fn gen_data(r: &mut Rng, vg: &mut ValGen) -> Value {
         "obj": vg.obj(r), "o2": {"p": vg.scalar(r), "q": vg.scalar(r)},
         "list": vg.records(r, 4), "l2": vg.scalars(r, 4),
         "ll": (0..r.below(4)).map(|_| vg.scalars(r, 3)).collect::<Vec<_>>(),
+        // an object map of records (iterated by field name)
+        "om": {"p": vg.record(r), "q": vg.record(r)},
     })
 }
 
@@ -1036,6 +1040,11 @@ fn gen_op(r: &mut Rng, vg: &mut ValGen, f: &Features, safe_splice: bool, prop: P
         0 => json!(["set", [*r.pick(ROOT_SCALARS)], vg.scalar(r)]),
         1 => json!(["set", ["obj", *r.pick(&["x", "k"])], vg.scalar(r)]),
         2 => json!(["set", ["obj", "y", "z"], vg.scalar(r)]),
+        3 if r.chance(0.25) => match r.below(4) {
+            0 => json!(["set", ["om", *r.pick(&["p", "q", "r"])], vg.record(r)]),
+            1 => json!(["set", ["om"], {"q": vg.record(r), "p": vg.record(r)}]),
+            _ => json!(["set", ["om", *r.pick(&["p", "q"]), *r.pick(&["v", "w"])], vg.scalar(r)]),
+        },
         3 => json!(["set", ["list", seg_i(r), *r.pick(&["v", "w"])], vg.scalar(r)]),
         4 => json!(["set", ["list", seg_i(r), "sub", seg_i(r), "v"], vg.scalar(r)]),
         5 if r.chance(0.3) => json!(["set", ["ll", seg_i(r), seg_i(r)], vg.uniq_str()]),
